@@ -30,30 +30,31 @@ type peer struct {
 	c2s     *bpipe // client -> peer
 	s2c     *bpipe // peer -> client
 
-	mu          sync.Mutex
-	cond        *sync.Cond
-	nreq        int
-	reqs        []wframe
-	held        []heldReq         // received, not yet answered (arrival order)
-	hold        bool              // true: requests are kept until the script answers them
-	files       map[string][]byte // handle -> content
-	fileSize    int               // size of generated files
-	readdirN    map[string]int
-	failOff     map[string]uint32              // "R:<off>" / "W:<off>" -> status code to answer with
-	inPump      int                            // requests taken out of `held` by the pump and not yet answered
-	badBytes    []int                          // every READ/WRITE whose range contains one of these positions fails with "E@<lowest>"
-	replyFn     func(p *peer, f wframe) []byte // override for reply synthesis (nil = default)
-	mutate      func(f wframe, reply []byte) []byte
-	quiet       bool
-	sent        int            // bytes written to s2c
-	ends        map[uint32]int // request id -> end offset (in s2c) of its reply
-	desync      bool
-	exts        [][2]string
-	version     uint32
-	readerDone  chan struct{}
-	halfOpen    bool // the client gets a writer whose Close is a no-op
-	closeOnEOF  bool
-	closeStatus uint32 // status code of the replies to CLOSE (0 = SSH_FX_OK): a server may report a failure and release the handle all the same
+	mu           sync.Mutex
+	cond         *sync.Cond
+	nreq         int
+	reqs         []wframe
+	held         []heldReq         // received, not yet answered (arrival order)
+	hold         bool              // true: requests are kept until the script answers them
+	files        map[string][]byte // handle -> content
+	fileSize     int               // size of generated files
+	readdirN     map[string]int
+	failOff      map[string]uint32              // "R:<off>" / "W:<off>" -> status code to answer with
+	inPump       int                            // requests taken out of `held` by the pump and not yet answered
+	badBytes     []int                          // every READ/WRITE whose range contains one of these positions fails with "E@<lowest>"
+	replyFn      func(p *peer, f wframe) []byte // override for reply synthesis (nil = default)
+	mutate       func(f wframe, reply []byte) []byte
+	quiet        bool
+	sent         int            // bytes written to s2c
+	ends         map[uint32]int // request id -> end offset (in s2c) of its reply
+	desync       bool
+	exts         [][2]string
+	version      uint32
+	readerDone   chan struct{}
+	writeFailEOF bool // failing WRITE chunks are answered with SSH_FX_EOF instead of SSH_FX_FAILURE
+	halfOpen     bool // the client gets a writer whose Close is a no-op
+	closeOnEOF   bool
+	closeStatus  uint32 // status code of the replies to CLOSE (0 = SSH_FX_OK): a server may report a failure and release the handle all the same
 }
 
 func newPeer(t testing.TB, tr *tracer) *peer {
@@ -148,7 +149,11 @@ func (p *peer) defaultReply(f wframe) []byte {
 			return fStatus(f.ID, code, fmt.Sprintf("E@%d", f.Off))
 		}
 		if b := p.firstBad(f.Off, len(f.Data)); b >= 0 {
-			return fStatus(f.ID, 4, fmt.Sprintf("E@%d", b))
+			code := uint32(4)
+			if p.writeFailEOF {
+				code = 1 // a failing WRITE answered with the status code SSH_FX_EOF: an error like any other
+			}
+			return fStatus(f.ID, code, fmt.Sprintf("E@%d", b))
 		}
 		d := p.file(f.Handle)
 		need := int(f.Off) + len(f.Data)
